@@ -165,7 +165,7 @@ type cctpWrap struct {
 
 func (c cctpWrap) DepositForBurn(ctx context.Context, m *cctptypes.MsgDepositForBurn) (*cctptypes.MsgDepositForBurnResponse, error) {
 	c.i.reqs = append(c.i.reqs, Req{Route: "CCTP", WithCaller: false, From: c.i.w.nameOfAddr(m.From),
-		Amt: toInt(m.Amount, "cctp req"), Denom: m.BurnToken, Dom: int64(m.DestinationDomain),
+		Amt: capInt(m.Amount), Denom: m.BurnToken, Dom: int64(m.DestinationDomain),
 		Mint: c.i.w.nameOfBytes(m.MintRecipient), Caller: "NONE", Tok: "NONE", Rcp: "NONE", Hook: "NONE", Meta: "NONE", To: "NONE", Mfd: "NONE", Full: true})
 	if c.i.fail("cctpBurn") {
 		return nil, errInjected
@@ -175,7 +175,7 @@ func (c cctpWrap) DepositForBurn(ctx context.Context, m *cctptypes.MsgDepositFor
 
 func (c cctpWrap) DepositForBurnWithCaller(ctx context.Context, m *cctptypes.MsgDepositForBurnWithCaller) (*cctptypes.MsgDepositForBurnWithCallerResponse, error) {
 	c.i.reqs = append(c.i.reqs, Req{Route: "CCTP", WithCaller: true, From: c.i.w.nameOfAddr(m.From),
-		Amt: toInt(m.Amount, "cctp req"), Denom: m.BurnToken, Dom: int64(m.DestinationDomain),
+		Amt: capInt(m.Amount), Denom: m.BurnToken, Dom: int64(m.DestinationDomain),
 		Mint: c.i.w.nameOfBytes(m.MintRecipient), Caller: c.i.w.nameOfBytes(m.DestinationCaller),
 		Tok: "NONE", Rcp: "NONE", Hook: "NONE", Meta: "NONE", To: "NONE", Mfd: "NONE", Full: true})
 	if c.i.fail("cctpBurn") {
@@ -215,10 +215,10 @@ func (h hypWrap) RemoteTransfer(ctx context.Context, m *warptypes.MsgRemoteTrans
 	if meta == "" {
 		meta = "NONE"
 	}
-	h.i.reqs = append(h.i.reqs, Req{Route: "HYP", From: h.i.w.nameOfAddr(m.Sender), Amt: toInt(m.Amount, "hyp req"),
+	h.i.reqs = append(h.i.reqs, Req{Route: "HYP", From: h.i.w.nameOfAddr(m.Sender), Amt: capInt(m.Amount),
 		Denom: "?", Dom: int64(m.DestinationDomain), Tok: h.i.w.nameOfBytes(m.TokenId.Bytes()),
-		Rcp: h.i.w.nameOfBytes(m.Recipient.Bytes()), Hook: hook, Gas: toInt(m.GasLimit, "gas"),
-		MaxFee: toInt(m.MaxFee.Amount, "maxfee"), Mfd: m.MaxFee.Denom, Meta: meta, Mint: "NONE", Caller: "NONE", To: "NONE", Full: true})
+		Rcp: h.i.w.nameOfBytes(m.Recipient.Bytes()), Hook: hook, Gas: capInt(m.GasLimit),
+		MaxFee: capInt(m.MaxFee.Amount), Mfd: m.MaxFee.Denom, Meta: meta, Mint: "NONE", Caller: "NONE", To: "NONE", Full: true})
 	if h.i.fail("hypTransfer") {
 		return nil, errInjected
 	}
@@ -234,7 +234,7 @@ func (s intWrap) Send(ctx context.Context, m *banktypes.MsgSend) (*banktypes.Msg
 	rq := Req{Route: "INT", From: s.i.w.nameOfAddr(m.FromAddress), To: s.i.w.nameOfAddr(m.ToAddress),
 		Mint: "NONE", Caller: "NONE", Tok: "NONE", Rcp: "NONE", Hook: "NONE", Meta: "NONE", Mfd: "NONE", Full: true}
 	if len(m.Amount) == 1 {
-		rq.Amt = toInt(m.Amount[0].Amount, "int req")
+		rq.Amt = capInt(m.Amount[0].Amount)
 		rq.Denom = m.Amount[0].Denom
 	} else {
 		rq.Denom = "?" + m.Amount.String()
@@ -319,9 +319,9 @@ type actionRec struct {
 
 func (a actionRec) HandlePacket(ctx context.Context, p *types.ActionPacket) error {
 	ta := p.TransferAttributes
-	rec := PerAction{ID: actionName(a.ID()), InDenom: ta.DestinationDenom(), InAmt: toInt(ta.DestinationAmount(), "action in")}
+	rec := PerAction{ID: actionName(a.ID()), InDenom: ta.DestinationDenom(), InAmt: capInt(ta.DestinationAmount())}
 	err := a.ActionController.HandlePacket(ctx, p)
-	rec.OutDenom, rec.OutAmt, rec.Err = ta.DestinationDenom(), toInt(ta.DestinationAmount(), "action out"), err != nil
+	rec.OutDenom, rec.OutAmt, rec.Err = ta.DestinationDenom(), capInt(ta.DestinationAmount()), err != nil
 	a.i.perAction = append(a.i.perAction, rec)
 	return err
 }
